@@ -208,3 +208,210 @@ Proof.
     rewrite (run_pstr [92; 117; 50; 48; 50; 57] SN SN [226; 128; 169]) by (vm_compute; reflexivity).
     rewrite IH' by (subst; simpl; lia). reflexivity.
 Qed.
+
+(** * Values *)
+Section JvInd.
+  Variable P : jv -> Prop.
+  Hypothesis Hnull : P JNull.
+  Hypothesis Hbool : forall b, P (JBool b).
+  Hypothesis Hint : forall z, P (JInt z).
+  Hypothesis Hstr : forall s, P (JStr s).
+  Hypothesis Harr : forall l, Forall P l -> P (JArr l).
+  Hypothesis Hobj : forall kvs, Forall (fun kv => P (snd kv)) kvs -> P (JObj kvs).
+  Fixpoint jv_ind' (v : jv) : P v :=
+    match v with
+    | JNull => Hnull
+    | JBool b => Hbool b
+    | JInt z => Hint z
+    | JStr s => Hstr s
+    | JArr l =>
+      Harr l ((fix go (l : list jv) : Forall P l :=
+                 match l with [] => Forall_nil _ | x :: l' => Forall_cons _ (jv_ind' x) (go l') end) l)
+    | JObj kvs =>
+      Hobj kvs ((fix go (l : list (bytes * jv)) : Forall (fun kv => P (snd kv)) l :=
+                   match l with [] => Forall_nil _ | kv :: l' => Forall_cons _ (jv_ind' (snd kv)) (go l') end) kvs)
+    end.
+End JvInd.
+
+Lemma jprint_arr x l : jprint (JArr (x :: l)) = 91 :: jprint x ++ ptail l.
+Proof. reflexivity. Qed.
+Lemma jprint_obj k x r : jprint (JObj ((k, x) :: r)) = 123 :: pstring k ++ 58 :: jprint x ++ potail r.
+Proof. reflexivity. Qed.
+
+(** Fuel a value needs. *)
+Fixpoint size (v : jv) : nat :=
+  match v with
+  | JArr l => 2 + (fix s (l : list jv) : nat := match l with [] => 0 | x :: l' => 1 + size x + s l' end) l
+  | JObj kvs =>
+    2 + (fix s (l : list (bytes * jv)) : nat :=
+           match l with [] => 0 | (_, x) :: l' => 2 + size x + s l' end) kvs
+  | _ => 1
+  end%nat.
+Fixpoint ssum (l : list jv) : nat := match l with [] => 0 | x :: l' => 1 + size x + ssum l' end%nat.
+Fixpoint osum (l : list (bytes * jv)) : nat :=
+  match l with [] => 0 | (_, x) :: l' => 2 + size x + osum l' end%nat.
+Lemma size_arr l : size (JArr l) = (2 + ssum l)%nat.
+Proof. reflexivity. Qed.
+Lemma size_obj l : size (JObj l) = (2 + osum l)%nat.
+Proof. reflexivity. Qed.
+
+(** The first byte of a printed value: never white space, never a closing bracket. *)
+Definition head_ok (c : N) : Prop :=
+  c = 110 \/ c = 116 \/ c = 102 \/ c = 34 \/ c = 91 \/ c = 123 \/ c = 45 \/ isdig c = true.
+
+Lemma pZ_head z : exists c tl, pZ z = c :: tl /\ (c = 45 \/ isdig c = true).
+Proof.
+  destruct z as [|p|p]; cbn [pZ].
+  - exists 48, []. auto.
+  - destruct (pnum_pos p [] I) as [_ (c & tl & E & _ & D)]. rewrite app_nil_r in E. eauto.
+  - eauto.
+Qed.
+
+Lemma jprint_head v : exists c tl, jprint v = c :: tl /\ head_ok c.
+Proof.
+  unfold head_ok. destruct v as [|[|]|z|s|[|x l]|[|[k x] r]]; try (eexists; eexists; split; [reflexivity|tauto]).
+  destruct (pZ_head z) as (c & tl & E & [H|H]); exists c, tl; (split; [exact E|tauto]).
+Qed.
+
+Lemma head_ok_ws c : head_ok c -> is_ws c = false /\ (c =? 93) = false /\ (c =? 125) = false.
+Proof.
+  unfold head_ok, is_ws, isdig. intros H.
+  assert (c = 110 \/ c = 116 \/ c = 102 \/ c = 34 \/ c = 91 \/ c = 123 \/ c = 45 \/ 48 <= c <= 57) as H'.
+  { destruct H as [H|[H|[H|[H|[H|[H|[H|H]]]]]]]; auto 10.
+    apply andb_true_iff in H as [A B]. apply N.leb_le in A. apply N.leb_le in B. auto 10. }
+  clear H.
+  assert (E : forall k, c <> k -> (c =? k) = false) by (intros; now apply N.eqb_neq).
+  repeat split; rewrite ?E by lia; reflexivity.
+Qed.
+
+Lemma skipws_head c tl : is_ws c = false -> skipws (c :: tl) = c :: tl.
+Proof. intros H. simpl. now rewrite H. Qed.
+
+Lemma okf_ptail l rest : okf (ptail l ++ rest).
+Proof. destruct l; simpl; auto. Qed.
+Lemma okf_potail l rest : okf (potail l ++ rest).
+Proof. destruct l as [|[k x] l]; simpl; auto. Qed.
+
+Lemma pstring_app k r : pstring k ++ r = 34 :: pq k ++ 34 :: r.
+Proof. unfold pstring. simpl. now rewrite <- app_assoc. Qed.
+
+Ltac pstep := cbn [skipws is_ws N.eqb Pos.eqb orb app].
+
+Definition PV (v : jv) : Prop :=
+  forall f rest, (size v <= f)%nat -> okf rest -> pval f (jprint v ++ rest) = Some (v, rest).
+
+Lemma parr_ptail l : Forall PV l ->
+  forall f rest, (1 + ssum l <= f)%nat -> okf rest -> parr f (ptail l ++ rest) = Some (l, rest).
+Proof.
+  induction 1 as [|y l Hy Hl IH]; intros f rest Hf Hr; (destruct f as [|f']; [simpl in Hf; lia|]).
+  - cbn [ptail parr]. pstep. reflexivity.
+  - cbn [ptail]. cbn [parr]. pstep. rewrite <- app_assoc.
+    cbn [ssum] in Hf.
+    rewrite (Hy f' (ptail l ++ rest)) by (try apply okf_ptail; lia).
+    rewrite IH by (auto; lia). reflexivity.
+Qed.
+
+Lemma pmem_member k x : PV x ->
+  forall f rest, (1 + size x <= f)%nat -> okf rest ->
+  pmem f (pstring k ++ 58 :: jprint x ++ rest) = Some ((k, x), rest).
+Proof.
+  intros Hx f rest Hf Hr. destruct f as [|f']; [lia|].
+  rewrite pstring_app. cbn [pmem]. pstep. rewrite pstr_pq. pstep.
+  rewrite (Hx f' rest) by (auto; lia). reflexivity.
+Qed.
+
+Lemma pobj_potail r : Forall (fun kv => PV (snd kv)) r ->
+  forall f rest, (1 + osum r <= f)%nat -> okf rest -> pobj f (potail r ++ rest) = Some (r, rest).
+Proof.
+  induction 1 as [|kv r Hy Hr IH]; [|destruct kv as [k y]]; intros f rest Hf Hrest; (destruct f as [|f']; [simpl in Hf; lia|]).
+  - cbn [potail pobj]. pstep. reflexivity.
+  - cbn [potail]. cbn [pobj]. pstep. cbn [osum] in Hf. simpl in Hy.
+    replace ((pstring k ++ 58 :: jprint y ++ potail r) ++ rest)
+      with (pstring k ++ 58 :: jprint y ++ (potail r ++ rest))
+      by (rewrite <- !app_assoc; cbn [app]; now rewrite <- !app_assoc).
+    rewrite (pmem_member k y Hy f' (potail r ++ rest)) by (try apply okf_potail; lia).
+    rewrite IH by (auto; lia). reflexivity.
+Qed.
+
+Lemma dispatch_num c tl f' :
+  (c = 45 \/ isdig c = true) ->
+  pval (S f') (c :: tl) =
+  match pnum (c :: tl) with Some (z, r') => Some (JInt z, r') | None => None end.
+Proof.
+  intros H.
+  assert (H' : c = 45 \/ 48 <= c <= 57).
+  { destruct H as [H|H]; auto. unfold isdig in H.
+    apply andb_true_iff in H as [A B]. apply N.leb_le in A. apply N.leb_le in B. auto. }
+  assert (E : forall k, c <> k -> (c =? k) = false) by (intros; now apply N.eqb_neq).
+  cbn [pval skipws]. unfold is_ws. rewrite !E by lia. cbn [orb].
+  rewrite !E by lia.
+  assert (T : (c =? 45) || isdig c = true) by (destruct H as [H|H]; rewrite H; [reflexivity|apply orb_true_r]).
+  rewrite T. reflexivity.
+Qed.
+
+Theorem pval_jprint : forall v, PV v.
+Proof.
+  induction v using jv_ind'; intros f rest Hf Hr; (destruct f as [|f']; [simpl in Hf; lia|]).
+  - reflexivity.
+  - destruct b; reflexivity.
+  - (* JInt *)
+    cbn [jprint]. destruct (pZ_head z) as (c & tl & E & HC).
+    pose proof (pnum_pZ z rest Hr) as PN. rewrite E in *. cbn [app] in *.
+    rewrite dispatch_num by exact HC. now rewrite PN.
+  - (* JStr *)
+    cbn [jprint]. rewrite pstring_app. cbn [pval]. pstep. now rewrite pstr_pq.
+  - (* JArr *)
+    destruct l as [|x l]; [reflexivity|].
+    rewrite jprint_arr. cbn [app]. rewrite <- app_assoc. cbn [pval]. pstep.
+    destruct (jprint_head x) as (c & tl & E & HC). destruct (head_ok_ws c HC) as (W1 & W2 & W3).
+    inversion H as [|? ? Hx Hl]; subst.
+    pose proof (Hx f' (ptail l ++ rest)) as PX. rewrite E in *. cbn [app] in *.
+    rewrite skipws_head by exact W1. rewrite W2.
+    rewrite size_arr in Hf. cbn [ssum] in Hf.
+    rewrite PX by (try apply okf_ptail; lia).
+    rewrite (parr_ptail l Hl) by (auto; lia). reflexivity.
+  - (* JObj *)
+    destruct kvs as [|[k x] r]; [reflexivity|].
+    rewrite jprint_obj. cbn [app]. cbn [pval]. pstep.
+    inversion H as [|? ? Hx Hl]; subst. simpl in Hx.
+    rewrite size_obj in Hf. cbn [osum] in Hf.
+    replace ((pstring k ++ 58 :: jprint x ++ potail r) ++ rest)
+      with (pstring k ++ 58 :: jprint x ++ (potail r ++ rest))
+      by (rewrite <- !app_assoc; cbn [app]; now rewrite <- !app_assoc).
+    pose proof (pmem_member k x Hx f' (potail r ++ rest)) as PM.
+    rewrite pstring_app in *. pstep.
+    rewrite PM by (try apply okf_potail; lia).
+    rewrite (pobj_potail r Hl) by (auto; lia). reflexivity.
+Qed.
+
+(** The fuel [jparse] gives itself is enough. *)
+Lemma size_bound_jprint : forall v, (size v <= 2 * length (jprint v))%nat.
+Proof.
+  induction v using jv_ind'; try (simpl; lia).
+  - destruct b; simpl; lia.
+  - cbn [size jprint]. destruct (pZ_head z) as (c & tl & E & _). rewrite E. simpl. lia.
+  - destruct l as [|x l]; [simpl; lia|].
+    inversion H as [|? ? Hx Hl]; subst. rewrite size_arr, jprint_arr. cbn [ssum length]. rewrite app_length.
+    assert (G : (ssum l + 2 <= 2 * length (ptail l))%nat).
+    { clear Hx H. induction Hl as [|y l Hy Hl IH]; cbn [ssum ptail length]; [lia|]. rewrite app_length. lia. }
+    lia.
+  - destruct kvs as [|[k x] r]; [simpl; lia|].
+    inversion H as [|? ? Hx Hl]; subst. simpl in Hx. rewrite size_obj, jprint_obj. cbn [osum length].
+    rewrite !app_length. cbn [length]. rewrite app_length.
+    assert (G : (osum r + 2 <= 2 * length (potail r))%nat).
+    { clear Hx H. induction Hl as [|kv r Hy Hl IH]; [simpl; lia|]. destruct kv as [k2 y]. simpl in Hy.
+      cbn [osum potail length]. rewrite !app_length. cbn [length]. rewrite app_length.
+      unfold pstring. cbn [length]. lia. }
+    unfold pstring. cbn [length]. lia.
+Qed.
+
+(** H1 for the instance: what [jprint] writes, [jparse] reads back - for every value of the
+    fragment (null, booleans, integers of any size, strings over any bytes, arrays and objects of
+    any depth and width). *)
+Theorem jparse_jprint : forall v, jparse (jprint v) = Some v.
+Proof.
+  intros v. unfold jparse.
+  pose proof (pval_jprint v (2 * length (jprint v) + 2)%nat []) as P. rewrite app_nil_r in P.
+  rewrite P; [reflexivity| |exact I].
+  pose proof (size_bound_jprint v). lia.
+Qed.
